@@ -152,6 +152,8 @@ class LockedMachine(Machine):
 
         for mod in models:
             mod = self if mod is self.self_literal else mod
+            if self.model_context_map[id(mod)]:  # already registered; contexts must not be entered twice
+                continue
             self.model_context_map[id(mod)].extend(self.machine_context)
             self.model_context_map[id(mod)].extend(model_context)
 
